@@ -365,20 +365,58 @@ def run(prog, chk):
     where = "%s:%s" % (f.file, f.line)
     if tas and rel:
         # from the exit of the spin loop every path to the function exit releases the lock
-        spin = [b for b in f.blocks.values() if b.get("cond") is not None and tas[0] in f.desc(b["cond"])]
+        spin = [b for b in f.blocks.values() if b.get("cond") is not None and tas[0] in f.desc(b["cond"]) and len(b["succ"]) == 2]
         ok = bool(spin)
+        acq_edges = []
         for b in spin:
-            out_edge = b["succ"][1]
+            # the edge on which testAndSet returned 0 (the lock was free and is ours now)
+            nt = fin.null_test(f, b["cond"])
+            out_edge = b["succ"][nt[1]] if nt is not None else b["succ"][1]
+            acq_edges.append((b["id"], out_edge))
             if f.find_path((out_edge, 0), {f.exit_pos()}, avoid=q.pos_of(f, rel), after_src=False) is not None:
                 ok = False
         if ok:
             chk.ok("C10.f", f, "spin lock released on every path", where, "MPT from the spin-loop exit", evals=2)
         else:
             chk.bad("C10.f", f, "spinlock-not-released", where, "a path leaves the pool-creation block without `_threadPoolLock = 0`: every later first start() spins forever")
-        reread = [b for b in f.blocks.values() if b.get("cond") is not None and "_threadPool" in f.r(b["cond"]) and "=" in f.r(b["cond"]) and
-                  any(f.find_path((s["succ"][1], 0), {(b["id"], 0)}, after_src=False) is not None for s in spin)]
+        # the pool pointer is read again after the lock was taken, and the allocation happens only where that value was null
+        defs_ = q.local_defs(f)
+        is_pool = lambda i_: re.search(r"_threadPool$", q.no_casts(f.r(i_))) is not None
+        rereads = {}     # node of the store/declaration -> local id
+        for did, dl in defs_.items():
+            for kind, nd, init in dl:
+                if init is not None and kind != "addr" and is_pool(init) and f.node_pos(nd) is not None and \
+                   any(f.edge_dominates(e_, f.node_pos(nd)) for e_ in acq_edges):
+                    rereads[nd] = did
         news = [i for i, n in enumerate(f.nodes) if n["k"] == "CXXNewExpr"]
-        if reread and news and all(any(a[0] != "case" and fin.key(f, a[0]).startswith("(threadPool = ") and not a[1] for a in fin.dominating_atoms(f, f.node_pos(n))) for n in news):
+
+        def rechecked(nw):
+            for a in fin.dominating_atoms(f, f.node_pos(nw)):
+                if a[0] == "case":
+                    continue
+                cn = fin._canon(f, a[0], a[1])
+                nullk = None
+                if cn[0] == "val" and not cn[2]:
+                    nullk = a[0]
+                elif cn[0] != "val" and cn[1] == "==" and "0" in (cn[0], cn[2]):
+                    nn = f.nodes[f.strip(a[0])]
+                    while nn["k"] == "UnaryOperator" and nn.get("op") == "!":
+                        nn = f.nodes[f.strip(nn["c"][0])]
+                    cs = nn["c"][-2:] if nn["k"] in ("BinaryOperator", "CXXOperatorCallExpr") else []
+                    nullk = next((c_ for c_ in cs if not q.is_zero(f, c_)), None)
+                if nullk is None:
+                    continue
+                kn = f.nodes[f.strip(nullk)]
+                while kn["k"] == "UnaryOperator" and kn.get("op") == "!":
+                    kn = f.nodes[f.strip(kn["c"][0])]
+                if kn["k"] == "BinaryOperator" and kn.get("op") == "=" and kn["i"] in rereads:
+                    return True        # `!(threadPool = _threadPool)`
+                if kn["k"] == "DeclRefExpr" and kn["ref"].get("dk") == "local":
+                    rd = q.reaching_def(f, kn["ref"]["id"], kn["i"], defs_)
+                    if rd is not None and any(rereads.get(nd_) == kn["ref"]["id"] and init_ == rd for did_, dl_ in defs_.items() for k_, nd_, init_ in dl_ if nd_ in rereads):
+                        return True
+            return False
+        if rereads and news and all(rechecked(n) for n in news):
             chk.ok("C10.f", f, "pool pointer re-read under the lock before creating a pool", where, "the allocation is dominated by the failed re-read", evals=2)
         else:
             chk.bad("C10.f", f, "pool-created-without-recheck", where, "the pool must be created only if it is still absent after the lock was taken (else two pools are created and one leaks its jobs)")
